@@ -74,6 +74,7 @@ def _classes():
     import numpy as np
     import equinox as eqx
     import optax
+    from typing import NamedTuple
     from jinns.validation._validation import AbstractValidationModule
 
     def _rec(tag, *arrs):
@@ -183,8 +184,26 @@ def _classes():
 
         return optax.GradientTransformation(init_fn, update_fn)
 
+    class RecState(NamedTuple):
+        pass
+
+    def rec_update():
+        """stateless identity GradientTransformation reporting (ordered) that an optimizer update took place.
+        An update happens exactly once per iteration, right after that iteration's loss evaluation: the loss
+        evaluations made *inside* the loop are those immediately followed by an update record, however many
+        evaluations (0, 1, 2, ... or abstract ones, which report nothing) the code makes outside the loop."""
+
+        def init_fn(params):
+            return RecState()
+
+        def update_fn(updates, state, params=None):
+            jax.debug.callback(lambda z: _rec("U", z), jnp.zeros(()), ordered=True)
+            return updates, state
+
+        return optax.GradientTransformation(init_fn, update_fn)
+
     _CACHE["classes"] = dict(ExactLoss=ExactLoss, Scripted=Scripted, NanAtState=NanAtState, nan_at=nan_at,
-                             batch_cols=batch_cols)
+                             batch_cols=batch_cols, rec_update=rec_update)
     return _CACHE["classes"]
 
 
@@ -272,9 +291,10 @@ def opt_key(ospec):
             ospec.get("nan_at") is not None)
 
 
-def build_optimizer(ospec):
-    """cached per configuration: `_gradient_step` is jitted with the optimizer as a static argument"""
-    key = ("opt",) + opt_key(ospec)
+def build_optimizer(ospec, record=True):
+    """cached per configuration: `_gradient_step` is jitted with the optimizer as a static argument.
+    With `record`, the stateless recording transformation is chained last (identity on the updates)."""
+    key = ("opt", bool(record)) + opt_key(ospec)
     if key in _CACHE:
         return _CACHE[key]
     import optax
@@ -287,6 +307,8 @@ def build_optimizer(ospec):
     opt = optax.sgd(lr, momentum=mom)
     if ospec.get("nan_at") is not None:
         opt = optax.chain(opt, _classes()["nan_at"]())
+    if record:
+        opt = optax.chain(opt, _classes()["rec_update"]())
     _CACHE[key] = opt
     return opt
 
@@ -295,13 +317,13 @@ def has_count(ospec):
     return bool(ospec["bounds"]) or ospec.get("nan_at") is not None
 
 
-def init_opt_state(ospec, params, opt0=None):
+def init_opt_state(ospec, params, record=True):
     """optimizer.init, then the fault step / leaf mask (data of the NaN-emitting transformation) and, for
     resumed runs described by their observation, counter and momentum trace"""
     import jax
     import jax.numpy as jnp
     cl = _classes()
-    opt = build_optimizer(ospec)
+    opt = build_optimizer(ospec, record)
     st = opt.init(params)
 
     def fix(x):
@@ -413,10 +435,10 @@ def first_point(batch_cols_json):
 # ------------------------------------------------------------------------------------------------
 # running one segment on the real jinns.solve
 # ------------------------------------------------------------------------------------------------
-def _solve_fn(n, ospec, tracked, jit):
+def _solve_fn(n, ospec, tracked, jit, record):
     import jax
     import jinns
-    opt = build_optimizer(ospec)
+    opt = build_optimizer(ospec, record)
 
     def f(params, data, pdata, odata, loss, opt_state, val):
         return jinns.solve(n, params, data, loss, opt, opt_state=opt_state, tracked_params=tracked,
@@ -425,10 +447,10 @@ def _solve_fn(n, ospec, tracked, jit):
     return jax.jit(f) if jit else f
 
 
-def solve_fn(n, ospec, pspec, track, jit):
-    key = ("solve", n, opt_key(ospec), repr(track), jit)
+def solve_fn(n, ospec, pspec, track, jit, record=True):
+    key = ("solve", n, opt_key(ospec), repr(track), jit, bool(record))
     if key not in _CACHE:
-        _CACHE[key] = _solve_fn(n, ospec, build_tracked(pspec, track), jit)
+        _CACHE[key] = _solve_fn(n, ospec, build_tracked(pspec, track), jit, record)
     return _CACHE[key]
 
 
@@ -485,9 +507,10 @@ def run_segment(seg, objs=None):
     loss = _memo("loss", [seg["loss"], nflat, record], lambda: build_loss(seg["loss"], nflat, "T", record))
     opt_state = objs.get("opt_state", None)
     if opt_state is None:
-        opt_state = _memo("opt_state", [seg["opt"], pspec], lambda: init_opt_state(seg["opt"], params))
+        opt_state = _memo("opt_state", [seg["opt"], pspec, record],
+                          lambda: init_opt_state(seg["opt"], params, record))
     val, _ = build_validation(seg.get("val"), nflat)
-    f = solve_fn(n, seg["opt"], pspec, seg.get("track"), bool(seg.get("jit", True)))
+    f = solve_fn(n, seg["opt"], pspec, seg.get("track"), bool(seg.get("jit", True)), record)
     del LOG[:]
     sink = io.StringIO()
     try:
@@ -509,11 +532,15 @@ def observe(seg, out, log):
     n = int(seg["n"])
     (p_out, loss_hist, term_hist, data_out, _loss_out, opt_out, stored, crit, best) = out
     if seg.get("record", True):
-        trecs = [r for r in log if r[0] == "T"]
-        # the first evaluation of the loss is the one made before the loop (container initialisation)
-        inloop = trecs[1:]
-        iters = len(inloop)
+        # the in-loop loss evaluations are the loss records immediately followed by an optimizer-update
+        # record (whatever number of evaluations, real or abstract, the code makes outside the loop)
+        tu = [r for r in log if r[0] in ("T", "U")]
+        inloop = [r for r, nxt in zip(tu, tu[1:]) if r[0] == "T" and nxt[0] == "U"]
+        iters = sum(1 for r in tu if r[0] == "U")          # one optimizer update per iteration
         batches = [[[qs(x) for x in c.tolist()] for c in r[2:]] for r in inloop]
+        # validation records made before the first update are not invocations of an iteration
+        first_u = next((i for i, r in enumerate(log) if r[0] == "U"), len(log))
+        log = [r for i, r in enumerate(log) if r[0] not in ("S", "V") or i > first_u]
     else:
         probe = [int(x) for x in np.asarray(term_hist["probe"]).tolist()]
         iters = sum(probe)
